@@ -568,8 +568,9 @@ class Producer(object):
                 fail_on_error=False,
             )
             self._req_attempts += 1
-            # add our handlers
-            d.addBoth(self._handle_send_response, payloadsByTopicPart, deferredsByTopicPart)
+            # add our handlers: only the payloads of this attempt can fail
+            retried = {t_and_p: p for t_and_p, p in payloadsByTopicPart.items() if p in payloads}
+            d.addBoth(self._handle_send_response, retried, deferredsByTopicPart)
             return d
 
         def _cancel_retry(failure, dc):
